@@ -115,10 +115,18 @@ def sample_gemini_params(rng, family, allow_precomputed=True, allow_instance=Tru
 
 def sample_config(rng, family=None, families=None, n_range=(2, 14), d_range=(1, 4), k_range=(1, 4),
                   max_iter_range=(1, 3), allow_precomputed=True, allow_instance=True, allow_callable=True,
-                  lr_choices=(1e-3, 1e-2, 0.1), scales=(0.5, 1.0, 2.0), min_d=None, alpha_choices=(0.0, 0.01, 0.3, 2.0)):
+                  lr_choices=(1e-3, 1e-2, 0.1), scales=(0.5, 1.0, 2.0), min_d=None, alpha_choices=(0.0, 0.01, 0.3, 2.0),
+                  p_big=0.0):
     if family is None:
         family = choice(rng, families or GRADIENT_FAMILIES)
     fam = FAMILIES[family]
+    big = rng.random() < p_big
+    if big:
+        # swarm: a share of the runs uses larger shapes (more samples, features, clusters, epochs, hidden units)
+        n_range = (n_range[0], max(n_range[1], rng.randint(20, 40)))
+        d_range = (d_range[0], max(d_range[1], rng.randint(5, 9)))
+        k_range = (k_range[0], max(k_range[1], rng.randint(4, 7)))
+        max_iter_range = (max_iter_range[0], max(max_iter_range[1], rng.randint(5, 12)))
     K = rng.randint(*k_range)
     n = rng.randint(max(K, n_range[0]), max(K, n_range[1]))
     dlo = d_range[0] if min_d is None else max(min_d, d_range[0])
@@ -134,7 +142,7 @@ def sample_config(rng, family=None, families=None, n_range=(2, 14), d_range=(1, 
     if fam.get("kernelrim"):
         p["base_kernel"] = choice(rng, ["linear", "rbf", "laplacian", "polynomial", "callable:rbf"])
     if fam.get("mlp"):
-        p["n_hidden_dim"] = rng.randint(1, 5)
+        p["n_hidden_dim"] = rng.randint(1, 5) if not big else rng.randint(4, 14)
     if fam.get("sparse"):
         p["alpha"] = choice(rng, list(alpha_choices))
         if not fam.get("nodynamic"):
@@ -142,7 +150,7 @@ def sample_config(rng, family=None, families=None, n_range=(2, 14), d_range=(1, 
         if fam.get("mlp"):
             p["M"] = choice(rng, [0.0, 0.5, 2.0, 10.0])
         if d >= 2 and rng.random() < 0.4:
-            p["groups"] = sample_groups(rng, d)
+            p["groups"] = sample_groups(rng, d, max_size=3 if not big else 6)
     if fam.get("douglas"):
         p["n_cuts"] = rng.randint(1, 3)
         p["temperature"] = choice(rng, [0.5, 1.0, 2.0])
@@ -151,11 +159,18 @@ def sample_config(rng, family=None, families=None, n_range=(2, 14), d_range=(1, 
             if not any(mask):
                 mask[rng.randrange(d)] = True
             p["feature_mask"] = mask
-        # keep the number of leaves small
-        used = sum(p.get("feature_mask", [True] * d))
-        while (p["n_cuts"] + 1) ** used > 64:
+        # keep the number of leaves small: at most 6 used features, and (n_cuts+1)**used <= 64 with n_cuts >= 1
+        mask = p.get("feature_mask", [True] * d)
+        if sum(mask) > 6:
+            keep = set(rng.sample([i for i, m in enumerate(mask) if m], 6))
+            mask = [i in keep for i in range(d)]
+            p["feature_mask"] = mask
+        used = sum(mask)
+        while p["n_cuts"] > 1 and (p["n_cuts"] + 1) ** used > 64:
             p["n_cuts"] -= 1
     cfg = dict(family=family, params=p, n=n, d=d, data_seed=rng.randrange(2 ** 31), data_scale=choice(rng, list(scales)))
+    if big:
+        cfg["big"] = True
     if uses_precomputed(cfg):
         if gemini_ref_spec(cfg)[0] == "mmd":
             cfg["affinity_src"] = choice(rng, ["linear", "rbf", "polynomial", "laplacian"])
@@ -164,7 +179,7 @@ def sample_config(rng, family=None, families=None, n_range=(2, 14), d_range=(1, 
     return cfg
 
 
-def sample_groups(rng, d):
+def sample_groups(rng, d, max_size=3):
     """A random valid `groups` list: disjoint, possibly partial, possibly complete."""
     feats = list(range(d))
     rng.shuffle(feats)
@@ -172,7 +187,7 @@ def sample_groups(rng, d):
     groups = []
     i = 0
     while i < d:
-        size = rng.randint(1, 3)
+        size = rng.randint(1, max_size)
         g = feats[i:i + size]
         i += size
         if complete or rng.random() < 0.6:
@@ -284,4 +299,4 @@ def config_signature(config):
     bsk = "none" if bs is None else ("1" if bs == 1 else ("ge_n" if bs >= n else "mid"))
     return "|".join(str(x) for x in (config["family"], g, p.get("kernel"), p.get("metric"), p.get("ovo"),
                                      p.get("solver"), bsk, p.get("n_clusters"), bool(p.get("groups")),
-                                     p.get("dynamic"), bool(config.get("decorate"))))
+                                     p.get("dynamic"), bool(config.get("decorate")), "big" if config.get("big") else "small"))
